@@ -38,14 +38,15 @@ class Lin:
         return Lin(self.c + s * o.c, k)
     def times(self, m):
         return Lin(self.c * m, {a: v * m for a, v in self.k.items()})
-    def rng(self):
+    def rng(self, lmin=0):
+        """smallest and largest value over the box: octets 0..255, lmin <= len(buf) <= isize::MAX"""
         lo = hi = self.c
         for a, v in self.k.items():
-            top = LEN_MAX if a == 'L' else 255
+            bot, top = (lmin, LEN_MAX) if a == 'L' else (0, 255)
             if v > 0:
-                hi += v * top
+                lo += v * bot; hi += v * top
             else:
-                lo += v * top
+                lo += v * top; hi += v * bot
         return lo, hi
     def is_const(self):
         return not self.k
@@ -148,6 +149,7 @@ class HeaderClass:
     """Linear reading of terms and path conditions for one value x of the first length octet."""
     def __init__(self, buf, x):
         self.buf, self.x = buf, x
+        self.lmin = 0          # octets known to be buffered on the path being read (see constraints)
 
     def true_len(self):
         """1 identifier octet + length octets + announced length, as a linear form over the length octets"""
@@ -164,13 +166,13 @@ class HeaderClass:
         rng = absx.INT_RANGE.get(hirq.strip_refs(str(ty or '')))
         if v is None or rng is None:
             return None
-        lo, hi = v.rng()
+        lo, hi = v.rng(self.lmin)
         if rng[0] <= lo and hi <= rng[1]:
             return v
         if rng[0] == 0:
             w = rng[1] + 1
             r = Lin(v.c % w, {a: c % w for a, c in v.k.items()})
-            lo, hi = r.rng()
+            lo, hi = r.rng(self.lmin)
             if 0 <= lo and hi <= rng[1]:
                 return r
         return None
@@ -185,33 +187,11 @@ class HeaderClass:
         if k == 'call' and t[1].rsplit('::', 1)[-1] in ('len', 'remaining') and len(t[2]) == 1 and t[2][0] == self.buf:
             return Lin(0, {'L': 1})
         if k == 'cast':
+            if t[1][0] == 'bin' and len(t[1]) == 4:
+                # a built-in operation computed in type t[2] (FramedInterp records the type of every one): its mathematical result,
+                # then what that type keeps of it
+                return self.fit(self.arith(t[1], t[2]), t[2])
             return self.fit(self.lin(t[1]), t[2])
-        if k == 'bin' and len(t) == 4:
-            a, b = self.lin(t[2]), self.lin(t[3])
-            if a is None or b is None:
-                return None
-            op = t[1]
-            if op == 'Add':
-                return a.plus(b)
-            if op == 'Sub':
-                return a.plus(b, -1)
-            if op == 'Mul':
-                return a.times(b.c) if b.is_const() else (b.times(a.c) if a.is_const() else None)
-            if op == 'Shl' and b.is_const() and 0 <= b.c < 64:
-                return a.times(2 ** b.c)
-            if op == 'BitOr':
-                # disjoint bits: one operand is a multiple of 2^m for every valuation, the other lies in 0 .. 2^m - 1
-                for p, q in ((a, b), (b, a)):
-                    if p.rng()[0] >= 0 and q.rng()[0] >= 0 and q.rng()[1] < 2 ** p.pow2():
-                        return p.plus(q)
-                return None
-            if op == 'BitAnd':
-                for p, q in ((a, b), (b, a)):
-                    if q.is_const() and q.c >= 0 and (q.c & (q.c + 1)) == 0 and p.rng()[0] >= 0 and p.rng()[1] <= q.c:
-                        return p          # masking with 2^m - 1 a value that is already below 2^m
-                if a.is_const() and b.is_const():
-                    return Lin(a.c & b.c)
-            return None
         if k == 'call' and t[1].rsplit('::', 1)[-1] in ('from_be_bytes', 'from_le_bytes') and t[1].startswith('core::num::<impl u') and len(t[2]) == 1 and t[2][0][0] == 'array':
             # the unsigned integer whose big- (little-) endian representation the w octets are
             es = [self.fit(self.lin(e), 'u8') for e in t[2][0][1]]
@@ -224,6 +204,9 @@ class HeaderClass:
             for i, e in enumerate(es):
                 r = r.plus(e.times(256 ** i))
             return r
+        if k == 'call' and t[1].rsplit('::', 1)[-1] in ('wrapping_add', 'wrapping_sub') and t[1].startswith('core::num::<impl u') and len(t[2]) == 2:
+            a, b = self.lin(t[2][0]), self.lin(t[2][1])          # the mathematical result modulo 2^w: exactly what `fit` keeps for an unsigned type
+            return None if a is None or b is None else self.fit(a.plus(b, 1 if t[1].endswith('wrapping_add') else -1), t[1][len('core::num::<impl '):].split('>')[0])
         if k == 'variant' and t[3] == 0 and t[1][0] == 'call' and t[2] in ('Ok', 'Some'):
             cal, args = t[1][1], t[1][2]
             name = cal.rsplit('::', 1)[-1]
@@ -232,10 +215,53 @@ class HeaderClass:
             if name in ('checked_add', 'checked_sub') and cal.startswith('core::num::<impl ') and len(args) == 2 and t[2] == 'Some':
                 a, b = self.lin(args[0]), self.lin(args[1])          # Some(r) exactly when the mathematical result is representable: r is that result
                 return None if a is None or b is None else a.plus(b, 1 if name == 'checked_add' else -1)
+        return None          # (an arithmetic term whose type is not recorded is not read: its wrap-around is unknown)
+
+    def arith(self, t, ty):
+        """mathematical (unbounded) result of a built-in binary operation on linear forms"""
+        a, b = self.lin(t[2]), self.lin(t[3])
+        if a is None or b is None:
+            return None
+        op = t[1]
+        rng = absx.INT_RANGE.get(hirq.strip_refs(str(ty or '')))
+        width = (rng[1] - rng[0] + 1).bit_length() - 1 if rng else 0
+        if op == 'Add':
+            return a.plus(b)
+        if op == 'Sub':
+            return a.plus(b, -1)
+        if op == 'Mul':
+            return a.times(b.c) if b.is_const() else (b.times(a.c) if a.is_const() else None)
+        if op == 'Shl' and b.is_const() and 0 <= b.c < width:
+            return a.times(2 ** b.c)          # (a shift by the type's width or more is not this: it panics, or the amount is masked)
+        if op == 'BitOr':
+            # disjoint bits: one operand is a multiple of 2^m for every valuation, the other lies in 0 .. 2^m - 1
+            for p, q in ((a, b), (b, a)):
+                if p.rng(self.lmin)[0] >= 0 and q.rng(self.lmin)[0] >= 0 and q.rng(self.lmin)[1] < 2 ** p.pow2():
+                    return p.plus(q)
+            return None
+        if op == 'BitAnd':
+            for p, q in ((a, b), (b, a)):
+                if q.is_const() and q.c >= 0 and (q.c & (q.c + 1)) == 0 and p.rng(self.lmin)[0] >= 0 and p.rng(self.lmin)[1] <= q.c:
+                    return p          # masking with 2^m - 1 a value that is already below 2^m
+            if a.is_const() and b.is_const():
+                return Lin(a.c & b.c)
         return None
 
     def constraints(self, pc):
-        """Linear forms known to be >= 0 on a path, read off its condition; atoms the models cannot read contribute nothing."""
+        """Linear forms known to be >= 0 on a path, read off its condition; atoms the models cannot read contribute nothing.
+        The buffer is not modified on the paths this is used for, so a bound `len(buf) >= k` found anywhere in the condition holds
+        wherever `len(buf)` was read: the condition is read again with it (it can make `len(buf) - 2` readable), until nothing
+        changes."""
+        self.lmin = 0
+        for _round in range(4):
+            cs = self.constraints_once(pc)
+            lmin = max([self.lmin] + [-c.c for c in cs if c.k == {'L': 1}])
+            if lmin == self.lmin:
+                break
+            self.lmin = lmin
+        return cs
+
+    def constraints_once(self, pc):
         out = []
         def cmp(op, a, b, truth):
             a, b = self.lin(a), self.lin(b)
@@ -280,13 +306,13 @@ class HeaderClass:
         goal = Lin(0, {'L': 1}).plus(self.true_len(), -1)
         # contradiction: a form that must be >= 0 (or the sum of two) is negative for every valuation
         for i, c in enumerate(cs):
-            if c.rng()[1] < 0 or any(c.plus(d).rng()[1] < 0 for d in cs[i + 1:]):
+            if c.rng(self.lmin)[1] < 0 or any(c.plus(d).rng(self.lmin)[1] < 0 for d in cs[i + 1:]):
                 return True, None
         best = None
         for i, c in enumerate(cs):
             for d in [None] + cs[i + 1:]:
                 s = c if d is None else c.plus(d)
-                gap = goal.plus(s, -1).rng()[0]          # goal >= s >= 0 for every valuation when this is >= 0
+                gap = goal.plus(s, -1).rng(self.lmin)[0]          # goal >= s >= 0 for every valuation when this is >= 0
                 if gap >= 0:
                     return True, None
                 if d is None and c.k.get('L', 0) > 0 and (best is None or gap > best[0]):
@@ -294,10 +320,11 @@ class HeaderClass:
         return False, best
 
 
-def incomplete_answers(f, B, buf, parser, verdict, interp_kw=None):
+def incomplete_answers(f, B, buf, parser, verdict, mutations, interp_kw=None):
     """Evaluate the decoder body once for every value of the first length octet and collect the paths that, after the parser
     reported Incomplete, answer something other than need-more without having established that the whole frame is buffered.
-    `verdict(out) -> (incomplete?, answer is need-more?)`.  Returns [(x, description)]."""
+    `verdict(out) -> (incomplete?, answer is need-more?)`, `mutations(out)` -> the buffer-modifying calls of a path.
+    Returns [(x, description)]."""
     bad = []
     for x in range(256):
         fb = FramedBuffer(buf, x, parser)
@@ -315,6 +342,8 @@ def incomplete_answers(f, B, buf, parser, verdict, interp_kw=None):
             inc, need_more = verdict(o)
             if inc is not True or need_more:
                 continue
+            if mutations(o):
+                bad.append((x, 'the buffer is modified on the path, so what was tested about it no longer describes it')); continue
             ok, best = H.complete(o.st.pc)
             if not ok:
                 want = H.true_len()
